@@ -83,12 +83,20 @@ impl CollisionTask<'_> {
             // if similarly simplified            
             let am_aaabb = sm_shape.local_aabb().loosened(r_min);
             let sm_abb_mesh = build_trimesh_from_aabb(am_aaabb);
-            if !parry3d::query::intersection_test(
-                sm_transform,
-                &sm_abb_mesh,
-                bg_transform,
-                bg_shape,
-            ).expect(SUPPORTED) {
+            // The mesh test only sees surfaces crossing. A big shape (or a part of it) lying
+            // entirely inside the enlarged box crosses nothing, yet may be closer than r_min,
+            // so vertices inside the box count as "near" too.
+            let bg_in_sm = sm_transform.inv_mul(bg_transform);
+            let near = am_aaabb.intersects(&bg_shape.aabb(&bg_in_sm))
+                && (parry3d::query::intersection_test(
+                    sm_transform,
+                    &sm_abb_mesh,
+                    bg_transform,
+                    bg_shape,
+                ).expect(SUPPORTED)
+                || bg_shape.vertices().iter().any(
+                    |v| am_aaabb.contains_local_point(&bg_in_sm.transform_point(v))));
+            if !near {
                 false
             } else {
                 parry3d::query::distance(
